@@ -70,6 +70,8 @@ def _F(name, params, outs, **kw):
 QUICK_DAG = {
     "chain3": {"funcs": [_F("f0", ["x"], ["o0"]), _F("f1", ["o0", "y"], ["o1"]), _F("f2", ["o1"], ["o2"])]},
     "diamond4": {"funcs": [_F("f0", ["x"], ["o0"]), _F("f1", ["o0"], ["o1"]), _F("f2", ["o0", "y"], ["o2"]), _F("f3", ["o1", "o2"], ["o3"])]},
+    # as diamond4, but the final output's name sorts BEFORE the other heads (simplified_pipeline orders merged groups by name)
+    "diamond4-leaf-sorts-first": {"funcs": [_F("f0", ["x"], ["o0"]), _F("f1", ["o0"], ["o1"]), _F("f2", ["o0", "y"], ["o2"]), _F("f3", ["o1", "o2"], ["a3"])]},
     "fan-in": {"funcs": [_F("f0", ["x"], ["o0"]), _F("f1", ["y"], ["o1"]), _F("f2", ["o0", "o1"], ["o2"])]},
     "tuple-leaf": {"funcs": [_F("f0", ["x"], ["o0"]), _F("f1", ["o0", "y"], ["o1", "p1"])]},
     # the two-output leaf returns a dict and has a custom output_picker
@@ -499,8 +501,13 @@ def ops_of(p, m, hist, tier):  # noqa: C901, PLR0912
     cur = [m.M[n] for n in roots + outs]
     for c in cur:
         ops.append(["rename", c, fresh(c)])
+    # the scope name is a proper prefix of an existing name (first letter of the first output): "o" for o0, o1, ...;
+    # a scope that merely BEGINS a name must still be prepended to it
+    sc = sorted(outs)[0].split(".")[-1][0]
+    if any(c.split(".")[-1] == sc or c.split(".")[0] == sc for c in cur):
+        sc = "s"  # a scope that EQUALS a parameter name is (rightly) refused; the map family has one-letter names
     for mode in ("in", "out", "both"):
-        ops.append(["scope", "s", mode])
+        ops.append(["scope", sc, mode])
     if any("." in c for c in cur):
         for mode in ("in", "out", "both"):
             ops.append(["scope", None, mode])
@@ -819,26 +826,30 @@ def behaviour(p, m):
 
 
 def mutate(p):
-    """later mutations of one object: a new default and a new name for EVERY root argument, a bound value on one parameter
-    of EVERY function (best effort; their own effect is other properties' business); -> number applied"""
+    """later mutations of one object: on EVERY function a new value for an already bound parameter and a bound value on
+    one more parameter, then a new default and a new name for EVERY root argument (best effort; their own effect is other
+    properties' business); -> number applied"""
     n = 0
-    roots = sorted(_quiet(lambda: p.topological_generations.root_args))
-    if roots:
-        for fn, arg in ((p.update_defaults, {r: "DM" for r in roots}), (p.update_renames, {r: "mut_" + r.replace(".", "_") for r in roots})):
-            try:
-                _quiet(fn, arg)
-                n += 1
-            except Exception:  # noqa: BLE001, S110
-                pass
+
+    def attempt(fn, arg):
+        nonlocal n
+        try:
+            _quiet(fn, arg)
+            n += 1
+        except Exception:  # noqa: BLE001, S110
+            pass
+
     for f in sorted(p.functions, key=lambda f: str(f.output_name)):
+        if f._bound:  # a function that was CONSTRUCTED with bound values (its dict may be shared between copies)
+            attempt(f.update_bound, {sorted(f._bound)[0]: "BM2"})
         ms_in = set(f.mapspec.input_names) if f.mapspec is not None else set()
         cand = [a for a in f.parameters if a not in f._bound and a not in ms_in and a not in f._defaults]
         if cand:
-            try:
-                _quiet(f.update_bound, {cand[-1]: "BM"})
-                n += 1
-            except Exception:  # noqa: BLE001, S110
-                pass
+            attempt(f.update_bound, {cand[-1]: "BM"})
+    roots = sorted(_quiet(lambda: p.topological_generations.root_args))
+    if roots:
+        attempt(p.update_defaults, {r: "DM" for r in roots})
+        attempt(p.update_renames, {r: "mut_" + r.replace(".", "_") for r in roots})
     return n
 
 
